@@ -257,9 +257,13 @@ theorem hyg_matchSelf (arms : List GToks) (h : ∀ a ∈ arms, Hyg a) : Hyg (mat
 
 /-! ### the templates -/
 
+theorem hyg_derefSig (d : DerefImpl) : Hyg d.sig := by
+  unfold DerefImpl.sig
+  split <;> hyg_simp [derefTargetToks]
+
 theorem hyg_deref (d : DerefImpl) : Hyg d.render := by
   unfold DerefImpl.render
-  split <;> hyg_simp [hyg_where_simple]
+  split <;> hyg_simp [hyg_where_simple, hyg_derefSig]
 
 theorem hyg_defVal (v : DefVal) : Hyg v.render := by
   cases v <;> hyg_simp [DefVal.render]
